@@ -132,6 +132,8 @@ def parse_content_disposition(
         key, value = item.split("=", 1)
         key = key.lower().strip()
         value = value.lstrip()
+        # path-traversal hardening applies to file names, not to field names
+        lead = "\\/" if key.partition("*")[0] == "filename" else ""
 
         if key in params:
             warnings.warn(BadContentDispositionHeader(header))
@@ -157,7 +159,7 @@ def parse_content_disposition(
                 continue
 
             try:
-                value = unquote(value, encoding, "strict").lstrip("\\/")
+                value = unquote(value, encoding, "strict").lstrip(lead)
             except (builtins.LookupError, UnicodeDecodeError):
                 # The charset is attacker-controlled here; an unknown name
                 # raises the builtin LookupError (the bare name is shadowed in
@@ -170,7 +172,7 @@ def parse_content_disposition(
             rstripped = value.rstrip()
             if is_quoted(rstripped):
                 failed = False
-                value = unescape(rstripped[1:-1].lstrip("\\/"))
+                value = unescape(rstripped[1:-1].lstrip(lead))
             elif is_token(value):
                 failed = False
             elif parts:
@@ -179,7 +181,7 @@ def parse_content_disposition(
                 _value = f"{value};{parts[0]}"
                 if is_quoted(_value):
                     parts.pop(0)
-                    value = unescape(_value[1:-1].lstrip("\\/"))
+                    value = unescape(_value[1:-1].lstrip(lead))
                     failed = False
 
             if failed:
